@@ -277,7 +277,7 @@ def simulate(spec: str, cfg: str, *, num: int, depth: int, seed: int,
 # ---------------------------------------------------------------------------
 # State-graph dump (dot with action labels) for "one test per transition".
 
-_RE_NODE = re.compile(r'^(-?\d+) \[label="(.*)"(?:,style = filled)?\];?$')
+_RE_NODE = re.compile(r'^(-?\d+) \[label="((?:[^"\\]|\\.)*)"(?:,tooltip="((?:[^"\\]|\\.)*)")?(?:,style = filled)?\];?$')
 _RE_EDGE = re.compile(r'^(-?\d+) -> (-?\d+) \[label="(.*?)",')
 
 
@@ -304,7 +304,10 @@ def dump_graph(spec: str, cfg: str, *, name: Optional[str] = None, workers: Opti
       continue
     m = _RE_NODE.match(ln)
     if m:
-      body = m.group(2).replace('\\n', '\n').replace('\\"', '"').replace('\\\\', '\\')
+      raw = m.group(3) if m.group(3) is not None else m.group(2)   # with a VIEW the label is the view, the tooltip the state
+      body = raw.replace('\\n', '\n').replace('\\"', '"').replace('\\\\', '\\')
+      if m.group(1) in nodes:
+        continue
       nodes[m.group(1)] = tlaval.parse_state(body)
       if 'style = filled' in ln:
         inits.append(m.group(1))
